@@ -426,3 +426,53 @@ func VH_EncodeCompare() {
 		vAssert(err != nil, "C06/comparison-without-uapi-code-accepted")
 	}
 }
+
+func init() { vEntries["VH_BuildHistory"] = VH_BuildHistory }
+
+// VH_BuildHistory: what Build returns for a rule does not depend on what was built (or rejected)
+// before: good rule, some other rule that Build accepts or rejects at one of its error exits, the
+// good rule again: same bytes.
+func VH_BuildHistory() {
+	goods := []Rule{
+		&SyscallRule{Type: AppendSyscallRuleType, List: "exit", Action: "always", Syscalls: []string{"open", "59"},
+			Filters: []FilterSpec{{Type: ValueFilterType, LHS: "arch", Comparator: "=", RHS: "b64"}, {Type: ValueFilterType, LHS: "uid", Comparator: "!=", RHS: "0"}, {Type: ValueFilterType, LHS: "exe", Comparator: "=", RHS: "/bin/x"}}, Keys: []string{"k1"}},
+		&SyscallRule{Type: AppendSyscallRuleType, List: "user", Action: "never", Filters: []FilterSpec{{Type: ValueFilterType, LHS: "pid", Comparator: ">", RHS: "7"}}},
+		&FileWatchRule{Type: FileWatchRuleType, Path: "/etc/passwd", Permissions: []AccessType{WriteAccessType, AttributeChangeAccessType}, Keys: []string{"a", "b"}},
+	}
+	longKey := make([]byte, 300)
+	for i := range longKey {
+		longKey[i] = 'k'
+	}
+	f := func(l, op, r string) FilterSpec { return FilterSpec{Type: ValueFilterType, LHS: l, Comparator: op, RHS: r} }
+	others := []Rule{
+		// rejected after some of their filters / syscalls / keys were taken in
+		&SyscallRule{Type: AppendSyscallRuleType, List: "exit", Action: "always", Syscalls: []string{"open"}, Filters: []FilterSpec{f("uid", "=", "1"), f("nosuchfield", "=", "1")}},
+		&SyscallRule{Type: AppendSyscallRuleType, List: "exit", Action: "always", Syscalls: []string{"open", "nosuchsyscall"}, Filters: []FilterSpec{f("gid", "=", "1")}},
+		&SyscallRule{Type: AppendSyscallRuleType, List: "exit", Action: "always", Syscalls: []string{"close", "4000"}},
+		&SyscallRule{Type: AppendSyscallRuleType, List: "task", Action: "always", Filters: []FilterSpec{f("pid", "=", "1"), f("success", "=", "1")}},
+		&SyscallRule{Type: AppendSyscallRuleType, List: "exit", Action: "always", Filters: []FilterSpec{f("path", "=", "/x"), f("pid", "=", "1")}, Keys: []string{string(longKey)}},
+		&SyscallRule{Type: AppendSyscallRuleType, List: "exit", Action: "always", Filters: []FilterSpec{f("exe", "=", "/y"), f("uid", "<", "nobody-zz")}},
+		&SyscallRule{Type: AppendSyscallRuleType, List: "exit", Action: "sometimes", Filters: []FilterSpec{f("pid", "=", "1")}},
+		&FileWatchRule{Type: FileWatchRuleType, Path: "relative/path", Keys: []string{"q"}},
+		vRule64Fields(),
+		// accepted
+		&SyscallRule{Type: AppendSyscallRuleType, List: "exit", Action: "never", Syscalls: []string{"1", "2", "3"}, Filters: []FilterSpec{f("dir", "=", "/etc"), f("perm", "=", "rw")}, Keys: []string{"zz"}},
+	}
+	g := goods[vChoose("good", len(goods))]
+	o := others[vChoose("other", len(others))]
+	w1, err1 := Build(g)
+	vAssert(err1 == nil, "C06/base-rule-rejected")
+	_, errO := Build(o)
+	if errO != nil {
+		vReach("C06/other-rule-rejected")
+	}
+	w2, err2 := Build(g)
+	vAssert(err2 == nil, "C06/build-depends-on-what-was-built-before")
+	same := len(w1) == len(w2)
+	for i := 0; same && i < len(w1); i++ {
+		if w1[i] != w2[i] {
+			same = false
+		}
+	}
+	vAssert(same, "C06/build-depends-on-what-was-built-before")
+}
